@@ -866,6 +866,37 @@ func init() {
 				}
 			}
 		}
+		c.Phase("multisig-dummy-matrix") // the extra element OP_CHECKMULTISIG pops: every m-of-n incl. 0-of-n x dummy values x NULLDUMMY on / off x all signatures right / last one empty
+		n = 0
+		for N := 0; N <= 3; N++ {
+			for M := 0; M <= N; M++ {
+				for _, dummy := range [][]byte{nil, {0x01}, {0x00}, {0x80}, {0x00, 0x00}, {0x02, 0x03}} {
+					for _, base := range []uint32{0, uint32(scriptflag.StrictMultiSig), uint32(scriptflag.StrictMultiSig | scriptflag.UTXOAfterGenesis),
+						uint32(scriptflag.StrictMultiSig | scriptflag.EnableSighashForkID | scriptflag.UTXOAfterGenesis), uint32(scriptflag.EnableSighashForkID | scriptflag.UTXOAfterGenesis),
+						uint32(scriptflag.StrictMultiSig | scriptflag.VerifyNullFail | scriptflag.VerifyStrictEncoding)} {
+						for variant := 0; variant < 4; variant++ {
+							n++
+							N, M, dummy, base, variant := N, M, dummy, base, variant
+							run(n, func(r *prng.R) *c06Spec {
+								fork := scriptflag.Flag(base)&scriptflag.EnableSighashForkID != 0
+								sp := &c06Spec{Kind: "multisig", M: M, N: N, Not: variant&1 == 1, Verify: variant == 2, SepPos: -1, SepKind: "plain", Flags: base, Dummy: dummy}
+								for i := 0; i < N; i++ {
+									sp.KeyEnc = append(sp.KeyEnc, "c")
+								}
+								for i := 0; i < M; i++ {
+									cl := "correct"
+									if variant == 3 && i == M-1 {
+										cl = "empty"
+									}
+									sp.Slots = append(sp.Slots, slot(r, i, cl, fork))
+								}
+								return sp
+							}, "multisig-dummy-matrix")
+						}
+					}
+				}
+			}
+		}
 		c.Phase("multisig-separators-and-mixed-hash-types") // under FORKID: every separator position and kind (also behind the check) x signatures of the enabled and of the original type in one check
 		n = 0
 		for N := 1; N <= 3; N++ {
